@@ -20,6 +20,26 @@ RULE = ("(a) aliased butt-cap hairlines of polylines inside the pixmap: the list
 
 def gen_cases(rng, tier):
     cases = []
+    # the scalar line clipper, bit-exact against Model/LineClip.v: end points inside, on the edges, a denormal beyond
+    # them, far outside, nearly vertical / horizontal
+    for i in range(4000 if tier == "quick" else 60000):
+        w, h = rng.choice([(3, 9), (10, 10), (33, 40), (8191, 3)])
+        def c(n):
+            k = rng.random()
+            if k < 0.25:
+                return rng.choice([0.0, float(n), -0.0, 1e-38, -1e-38, -1e-45, n + 1e-3, n - 1e-3, 0.5, n - 0.5])
+            if k < 0.6:
+                return rng.uniform(-2, n + 2)
+            if k < 0.8:
+                return rng.uniform(-3 * n, 4 * n)
+            return rng.choice([-32767.0, 32767.0, 1e4, -1e4, 6355.5, 14546.5])
+        x0, y0, x1, y1 = c(w), c(h), c(w), c(h)
+        if rng.random() < 0.2:
+            x1 = x0 + rng.choice([0.0, 1e-38, -1e-38, 1e-5, 2e-4, 3e-4])
+        if rng.random() < 0.1:
+            y1 = y0 + rng.choice([0.0, 1e-38, 1e-5, 3e-4])
+        clip = rng.choice([(0.0, 0.0, float(w), float(h)), (-1.0, -1.0, w + 1.0, h + 1.0), (-32767.0, -32767.0, 32767.0, 32767.0)])
+        cases.append(("line_clip", [f2b(x0), f2b(y0), f2b(x1), f2b(y1)] + [f2b(v) for v in clip]))
     n = 2000 if tier == "quick" else 30000
     for i in range(n):
         w, h = rng.choice([(10, 10), (16, 9), (33, 40)])
@@ -60,6 +80,15 @@ def gen_cases(rng, tier):
 def oracle(suite, args, out):
     if out.startswith(("PANIC", "CRASH", "HANG")):
         return "implementation did not return: " + out[:200]
+    if suite == "line_clip":
+        o = ints(out)
+        if len(o) == 4:
+            l, t, r, b = [b2f(v) for v in args[4:8]]
+            x0, y0, x1, y1 = [b2f(v) for v in o]
+            for (x, y) in ((x0, y0), (x1, y1)):
+                if x < l or x > r or y < t or y > b:
+                    return "line_clipper::intersect returned the point (%r, %r) outside the clip %r" % (x, y, (l, t, r, b))
+        return None
     if suite == "hair_spans":
         if "-77" in out.split():
             return "hairline emitted a blit other than a 1-pixel blit_h"
@@ -90,11 +119,13 @@ def known_class(suite, args, out, what):
 
 
 def relation(suite, args, mo, io):
-    return mo == io or mo.strip() == "-9"
+    return mo == io or (suite != "line_clip" and mo.strip() == "-9")
 
 
 def nontrivial_tag(suite, args, out):
     o = out.split()
+    if suite == "line_clip":
+        return "clipped" if len(o) == 4 else None
     if suite == "hair_spans":
         return "blits" if len(o) >= 2 and o[0].lstrip("-").isdigit() and int(o[0]) >= 0 else None
     return "px" if len(o) >= 3 and o[0].isdigit() and int(o[0]) > 0 else None
